@@ -2,7 +2,7 @@
    (configuration, handler scripts, rounds) and renders, per poll, the wire items accepted by the
    socket, the service calls started and the state of the connection future. *)
 From Coq Require Import String.
-From AV Require Import Lib.Base Lib.V H1.ConnRec H1.ConnState.
+Require Import AV.Lib.Base AV.Lib.V AV.H1.ConnRec AV.H1.ConnState.
 Open Scope N_scope.
 
 Record case := mkCase { c_cfg : cfg; c_hs : list (list hact); c_rounds : list round }.
